@@ -92,6 +92,11 @@ def run_check(spec, tier, seed):
         thm = vlib.audit(prop)
         vlib.grep_forbidden(prop)
         lemma_count = vlib.count_lemmas(prop)
+        # further theorem files that strengthen the tie of this property (audited the same way)
+        for extra in getattr(spec, "extra_prop_files", []):
+            thm.update(vlib.audit(extra))
+            vlib.grep_forbidden(extra)
+            lemma_count += vlib.count_lemmas(extra)
         spec.extra_obligations(tier)
         if tier == "thorough":
             vlib.leanchecker(prop)
